@@ -80,6 +80,13 @@ func VerifyFunc(P *Program, DB *SpecDB, fn *ssa.Function, ct *Contract) (res *Fu
 	sort.Strings(res.Inlined)
 	_, _, loops := analyseCFG(fn)
 	res.LoopCount = len(loops)
+	for _, ls := range ct.Loops {
+		if ls.Ordinal < 1 || ls.Ordinal > len(loops) {
+			// a loop clause that binds to nothing would be silently ignored (and everything
+			// that leans on its invariant would merely time out)
+			res.Err = toolErr(fmt.Sprintf("contract names loop %d, the function has %d loops", ls.Ordinal, len(loops)))
+		}
+	}
 	for _, li := range loops {
 		found := false
 		for _, ls := range ct.Loops {
